@@ -61,6 +61,8 @@ def shards(tier):
         out.append(dict(dev=dev, op="distribute", sgeo="lt3x2", dgeo="p2x2", k=1, steps=1))
         # chained: a well that is first a destination and then a source within one call, with composition tracking
         out.append(dict(dev=dev, op="transfer", sgeo="p3x2", dgeo="p3x2", same=True, k=2, steps=1, partition_by="auto", washes=[1], cands=[[0, 1], [1, 2]], comp=True, wl_max=common.BIG * 2))
+        # both plates constructed by the public constructor from ONE caller-owned float array (the same fill array reused for two plates)
+        out.append(dict(dev=dev, op="transfer", sgeo="p2x2", dgeo="p2x2", shared_init=True, k=1, steps=2, partition_by="auto", washes=[1]))
         # two operations in sequence on one worklist (the inductive argument is not the only support of the claim)
         T = dict(op="transfer", k=1, washes=[1], partition_by="auto")
         seqs = [[T, T], [dict(op="dispense", k=1, volshapes=["list"]), T], [T, dict(op="aspirate", k=1, volshapes=["list"])]]
